@@ -191,6 +191,15 @@ static void gen_ple(opcase_t *c, rng_t *r, int maxdim) {
       n = 513 + rng_int(r, 0, 500);
       m = rng_int(r, 2, 150);
     }
+    /* tall and thin: a block of 64 (65..128) columns with so many rows that width * nrows exceeds the PLE cutoff of the smallest
+     * cache triple - the `ncols <= 64` half of the base-case switch is then the only thing that stops the column recursion */
+    if (t == 4 && maxdim >= 200 && rng_chance(r, 1, 6) && (v == P_PLE || v == P_PLUQ || v == P__PLE || v == P__PLUQ)) {
+      static const int TN[] = {64, 64, 65, 100, 127, 128};
+      n = TN[rng_int(r, 0, 5)];
+      m = GC.ple_cutoff + 1 + rng_int(r, 0, 300);
+      if (m > 9000) m = 8193 + rng_int(r, 0, 300); /* generator constants of a large triple: stay affordable, the small triple still recurses */
+      hx_tag("ple_tall_thin");
+    }
   }
   char d[96];
   int kind;
